@@ -354,6 +354,22 @@ fn render_rule(r: &RuleM, mut style: impl FnMut() -> u64) -> Vec<u8> {
 fn ltt_text(off: i64, dst: bool, name: &[u8]) -> String {
     format!("{},{},{}", off, dst as u8, String::from_utf8_lossy(name))
 }
+/// the offsets (east of Greenwich, seconds) a rule states, the DST one possibly defaulted
+fn rule_offsets(r: &RuleM) -> Vec<i64> {
+    let std_ut = -r.std_off.secs();
+    let mut v = vec![std_ut];
+    if let Some(d) = &r.dst {
+        v.push(match &d.off {
+            Some(o) => -o.secs(),
+            None => std_ut + 3600,
+        });
+    }
+    v
+}
+/// F32: every stated offset strictly within 24 hours of UTC
+fn rule_within_24h(r: &RuleM) -> bool {
+    rule_offsets(r).iter().all(|o| -86400 < *o && *o < 86400)
+}
 /// the rule the property says a rendered string denotes
 fn expected_rule(r: &RuleM) -> String {
     let std_ut = -r.std_off.secs();
@@ -1083,7 +1099,13 @@ fn mutations(c: &mut Ctx, base: &[u8], l: &Layout, ext_footer: bool) -> Vec<(Str
         out.push(("mut.type.offset.min".into(), b, true));
         let mut b = base.to_vec();
         b[rec..rec + 4].copy_from_slice(&i32::MAX.to_be_bytes());
-        out.push(("mut.type.offset.max".into(), b, false));
+        out.push(("mut.type.offset.max".into(), b, true));
+        // F32: the bound is 86400 s exactly, on either side
+        for (v, must) in [(86399i32, false), (-86399, false), (86400, true), (-86400, true), (86401, true), (-86401, true), (90000, true), (-93599, true)] {
+            let mut b = base.to_vec();
+            b[rec..rec + 4].copy_from_slice(&v.to_be_bytes());
+            out.push((format!("mut.type.offset.{}", v), b, must));
+        }
         // the designation the record points at: illegal character, too short
         let at = base[rec + 5] as usize;
         if at < nchars && base[l.names_off + at] != 0 {
@@ -1258,6 +1280,43 @@ fn tz_string_stage(c: &mut Ctx) {
     ] {
         read_rule(c, s, ext, "tz.fixed-example");
     }
+    // F32, directed: offsets of exactly 86399 / 86400 / 86401 s (and the far end 24:59:59), either
+    // sign, as the standard offset, as a given DST offset and as a defaulted DST offset
+    for (s, accept) in [
+        (&b"AAA23:59:59"[..], true),
+        (b"AAA-23:59:59", true),
+        (b"AAA24", false),
+        (b"AAA-24", false),
+        (b"AAA+24:00:00", false),
+        (b"AAA24:00:01", false),
+        (b"AAA-24:00:01", false),
+        (b"AAA24:59:59", false),
+        (b"AAA-24:59:59", false),
+        (b"XXX-24:30", false),
+        (b"AAA5BBB23:59:59,M3.2.0,M11.1.0", true),
+        (b"AAA5BBB-23:59:59,M3.2.0,M11.1.0", true),
+        (b"AAA5BBB24,M3.2.0,M11.1.0", false),
+        (b"AAA5BBB-24,M3.2.0,M11.1.0", false),
+        (b"AAA5BBB24:00:01,M3.2.0,M11.1.0", false),
+        (b"AAA5BBB-24:00:01,M3.2.0,M11.1.0", false),
+        (b"AAA5BBB-24:59:59,M3.2.0,M11.1.0", false),
+        (b"AAA24BBB5,M3.2.0,M11.1.0", false),
+        (b"AAA-23:59:59BBB-23:59:59,J1,J365", true),
+        (b"AAA-22:59:59BBB,J1,J365", true),
+        (b"AAA-23BBB,J1,J365", false),
+        (b"AAA-23:00:01BBB,J1,J365", false),
+        (b"AAA-23:59:59BBB,J1,J365", false),
+        (b"AAA24:59:59BBB,J1,J365", false),
+    ] {
+        for ext in [false, true] {
+            let got = read_rule(c, s, ext, "tz.f32-directed");
+            match (&got, accept) {
+                (Some(d), false) => c.fail("a TZ string stating a UTC offset of 24 hours or more was accepted (F32)", &format!("text={:?} ext={} got={}", String::from_utf8_lossy(s), ext, d)),
+                (None, true) => c.fail("a well-formed POSIX TZ string was rejected", &format!("text={:?} ext={} (offsets below 24 h)", String::from_utf8_lossy(s), ext)),
+                _ => {}
+            }
+        }
+    }
     let n = c.n(4000, 60000);
     for i in 0..n {
         let ext = c.rng.chance(1, 2);
@@ -1267,10 +1326,18 @@ fn tz_string_stage(c: &mut Ctx) {
         let want = expected_rule(&r);
         let e = if uses_ext(&r) { true } else { c.rng.chance(1, 2) };
         let got = read_rule(c, &text, e, if r.dst.is_some() { "tz.gen.alt" } else { "tz.gen.fixed" });
+        // F32 (repaired): the offsets a rule states — given or defaulted — must lie strictly within
+        // 24 hours of UTC; the field ranges (hh = 0..24) reach 24:59:59, and such a text is REFUSED
+        let within = rule_within_24h(&r);
         match &got {
+            Some(d) if !within => c.fail("a TZ string stating a UTC offset of 24 hours or more was accepted (F32)", &format!("text={:?} ext={} got={}", String::from_utf8_lossy(&text), e, d)),
+            None if !within => c.count("tz.gen:refused, offset of 24 h or more"),
             Some(d) if *d == want => {}
             Some(d) => c.fail("a POSIX TZ string was read as a different rule", &format!("text={:?} ext={} got={} want={}", String::from_utf8_lossy(&text), e, d, want)),
             None => c.fail("a well-formed POSIX TZ string was rejected", &format!("text={:?} ext={} want={}", String::from_utf8_lossy(&text), e, want)),
+        }
+        if !within {
+            continue;
         }
         if i < 3 {
             c.sample(&format!("TZ string {:?} -> {}", String::from_utf8_lossy(&text), want));
@@ -1591,6 +1658,17 @@ pub fn run(c: &mut Ctx) {
         c.count(&format!("written:v{}{}", f.version, if f.version >= 2 { if f.footer.is_empty() { ".nofooter" } else { ".footer" } } else { "" }));
         let times: Vec<i64> = if f.version == 1 { f.v1.trans.iter().map(|t| t.0 as i32 as i64).collect() } else { f.v2.trans.iter().map(|t| t.0).collect() };
         let got = read_tzif(c, &bytes, "written", &times);
+        // F32 (repaired): every local time type of the block that is read, and every offset the footer
+        // states, must lie strictly within 24 hours of UTC; otherwise the file is invalid zone data
+        let used = if f.version == 1 { &f.v1 } else { &f.v2 };
+        let representable = used.types.iter().all(|t| -86400 < t.off && t.off < 86400);
+        if !representable {
+            match &got {
+                Some(d) => c.fail("a TZif file with a UTC offset of 24 hours or more was accepted (F32)", &format!("file={} got={}", hex(&bytes), d)),
+                None => c.count("written:refused, offset of 24 h or more"),
+            }
+            continue;
+        }
         match &got {
             Some(d) if *d == want => {}
             Some(d) => c.fail("a written TZif file was decoded differently from what was written", &format!("file={} got={} want={}", hex(&bytes), d, want)),
